@@ -515,7 +515,8 @@ func (s *saslServer) Next(resp []byte) ([]byte, bool, error) {
 	}
 	s.b.log.add(fmt.Sprintf("SN:%s:%s:%s:%s", rs, hx(st.challenge), d, st.res.String()))
 	if err := st.res.err(); err != nil {
-		return nil, false, err
+		// go-sasl's own servers report a rejection as (nil, true, err): the scripted `done` is passed on with the error
+		return nil, st.done, err
 	}
 	return st.challenge, st.done, nil
 }
